@@ -80,9 +80,9 @@ func (c *vElConn) SetReadDeadline(t time.Time) error  { return nil }
 func (c *vElConn) SetWriteDeadline(t time.Time) error { return nil }
 
 type vElSpec struct {
-	rank, weight, arbiter, own  int
-	pid, cid, saved             uint64
-	roles, views                []int
+	rank, weight, arbiter, own int
+	pid, cid, saved            uint64
+	roles, views               []int
 }
 
 type vElNode struct {
@@ -94,8 +94,27 @@ type vElNode struct {
 	outstanding int
 	// monitor
 	lastPid, lastCid uint64
-	accepted         map[string]bool
-	wonWith          []string
+	acks             []vElAck // every commit this member acknowledged (handler result, or DoSelfCommit seen through its effect)
+	wins             []vElAck // every successful DoCommit of this member as candidate (number = proposalIndex it sent)
+	savedTracked     uint64   // commitId at the last ArbiterStore.Save of this member
+	pre              vElPre   // voter fields just before the event being executed completes one of its requests
+}
+
+type vElAck struct {
+	at   int // index of the event
+	num  uint64
+	host string
+}
+
+type vElPre struct {
+	pid, cid uint64
+	latch    string
+}
+
+// a step of the execution that is one of the three recorded defects at work on `member`
+type vElCause struct {
+	at, member int
+	kind       string // restart-forgot-commit | failed-commit-cleared-latch | doproposal-overwrote-number
 }
 
 type vElMsg struct {
@@ -106,21 +125,71 @@ type vElMsg struct {
 }
 
 type vElRun struct {
-	n        int
-	dir      string
-	palette  [][16]byte
-	spec     []vElSpec
-	hosts    []string
-	hostIdx  map[string]int
-	nodes    []*vElNode
-	sps      [][]*BinaryServerProtocol
-	inflight []*vElMsg
-	posted   chan *vElPost
-	events   []string
-	obs      []string
-	restarts int
-	regress  []string
-	logger   logging.Logger
+	n           int
+	dir         string
+	palette     [][16]byte
+	spec        []vElSpec
+	hosts       []string
+	hostIdx     map[string]int
+	nodes       []*vElNode
+	sps         [][]*BinaryServerProtocol
+	inflight    []*vElMsg
+	posted      chan *vElPost
+	events      []string
+	obs         []string
+	restarts    int
+	regress     []string
+	logger      logging.Logger
+	causes      []vElCause
+	overwriteBy int // member whose successful DoProposal changed its proposalId in the event being emitted (-1: none)
+}
+
+func (x *vElRun) preOf(i int) vElPre {
+	v := x.nodes[i].mgr.voter
+	return vElPre{v.proposalId, v.commitId, v.proposalHost}
+}
+
+func (x *vElRun) violation(sig, what string) {
+	x.regress = append(x.regress, fmt.Sprintf("%s|%s (event #%d)", sig, what, len(x.events)))
+}
+
+// handler contract, stated on the real objects at the moment a proposal is accepted (remote handler or DoSelfProposal)
+func (x *vElRun) checkProposalAccept(t int, pre vElPre, k uint64, aof [16]byte, how string) {
+	mgr := x.nodes[t].mgr
+	if k <= pre.pid || k <= pre.cid {
+		x.violation("C12:acceptor-accepted-non-increasing-proposal", fmt.Sprintf("member %d accepted proposal %d (%s) while holding proposalId %d, commitId %d", t, k, how, pre.pid, pre.cid))
+	}
+	if pre.latch != "" {
+		x.violation("C12:acceptor-accepted-proposal-while-latched", fmt.Sprintf("member %d accepted proposal %d (%s) while latched on %s", t, k, how, pre.latch))
+	}
+	if mgr.ownMember.arbiter == 0 && mgr.CompareAofId(mgr.slock.replicationManager.GetCurrentAofID(), aof) > 0 {
+		x.violation("C12:acceptor-accepted-older-log", fmt.Sprintf("member %d accepted proposal %d (%s) for log %s although its own log %s is newer", t, k, how,
+			FormatAofId(aof), FormatAofId(mgr.slock.replicationManager.GetCurrentAofID())))
+	}
+}
+
+// handler contract at the moment a commit is acknowledged (remote handler or DoSelfCommit); records the ack
+func (x *vElRun) checkCommitAck(t int, pre vElPre, k uint64, host string, how string) {
+	nd := x.nodes[t]
+	if k != pre.pid || k <= pre.cid {
+		x.violation("C12:acceptor-acked-commit-for-other-number", fmt.Sprintf("member %d acknowledged commit %d for %s (%s) while holding proposalId %d, commitId %d", t, k, host, how, pre.pid, pre.cid))
+	}
+	if pre.latch != "" && pre.latch != host {
+		// on the unchanged code a latched member's proposalId moves only through DoProposal's assignment (D2)
+		sig := "C12:acceptor-acked-commit-for-other-host"
+		since := -1
+		if len(nd.acks) > 0 {
+			since = nd.acks[len(nd.acks)-1].at
+		}
+		for _, c := range x.causes {
+			if c.member == t && c.at > since && c.kind == "doproposal-overwrote-number" {
+				sig += ":doproposal-overwrote-number"
+				break
+			}
+		}
+		x.violation(sig, fmt.Sprintf("member %d acknowledged commit %d for %s (%s) while latched on %s", t, k, host, how, pre.latch))
+	}
+	nd.acks = append(nd.acks, vElAck{len(x.events), k, host})
 }
 
 func vElQuiesce() {
@@ -158,7 +227,7 @@ func (x *vElRun) buildNode(i int, fromDisk bool) *vElNode {
 		mgr.voter.commitId = sp.cid
 		mgr.voter.proposalId = sp.pid
 	}
-	nd := &vElNode{idx: i, mgr: mgr, clients: make([]*ArbiterClient, x.n), accepted: map[string]bool{}}
+	nd := &vElNode{idx: i, mgr: mgr, clients: make([]*ArbiterClient, x.n), savedTracked: sp.saved}
 	for j, m := range mgr.members {
 		m.status = ARBITER_MEMBER_STATUS_ONLINE
 		if j == i {
@@ -198,21 +267,34 @@ func (x *vElRun) emit(ev, res string, actor int) {
 	x.check(ev, -1)
 }
 
-// monitor: numbers never decrease on a member that was not restarted by this event
+// monitor: numbers never decrease; every decrease is attributed to its cause in this execution
 func (x *vElRun) check(ev string, restarted int) {
 	for i, nd := range x.nodes {
 		v := nd.mgr.voter
+		at := len(x.events) - 1
 		if i == restarted {
 			if v.proposalId < nd.lastPid || v.commitId < nd.lastCid {
-				x.regress = append(x.regress, fmt.Sprintf("C12:regressed-across-restart|member %d restarted from meta.pb: proposalId %d -> %d, commitId %d -> %d (event #%d %s)",
-					i, nd.lastPid, v.proposalId, nd.lastCid, v.commitId, len(x.events)-1, ev))
+				kind := "other"
+				if v.commitId == nd.savedTracked && v.proposalId == v.commitId {
+					// exactly what Load does with what Save last wrote: the loss is the missing Save (D1)
+					kind = "proposal-not-persisted"
+					if v.commitId < nd.lastCid {
+						kind = "commit-not-persisted"
+					}
+				}
+				x.regress = append(x.regress, fmt.Sprintf("C12:regressed-across-restart:%s|member %d restarted from meta.pb (last saved commitId %d): proposalId %d -> %d, commitId %d -> %d (event #%d %s)",
+					kind, i, nd.savedTracked, nd.lastPid, v.proposalId, nd.lastCid, v.commitId, at, ev))
 			}
 		} else {
 			if v.proposalId < nd.lastPid {
-				x.regress = append(x.regress, fmt.Sprintf("C12:proposal-regressed|member %d was not restarted, proposalId %d -> %d (event #%d %s)", i, nd.lastPid, v.proposalId, len(x.events)-1, ev))
+				kind := "other"
+				if x.overwriteBy == i {
+					kind = "doproposal-overwrote-number"
+				}
+				x.regress = append(x.regress, fmt.Sprintf("C12:proposal-regressed:%s|member %d was not restarted, proposalId %d -> %d (event #%d %s)", kind, i, nd.lastPid, v.proposalId, at, ev))
 			}
 			if v.commitId < nd.lastCid {
-				x.regress = append(x.regress, fmt.Sprintf("C12:commit-regressed|member %d was not restarted, commitId %d -> %d (event #%d %s)", i, nd.lastCid, v.commitId, len(x.events)-1, ev))
+				x.regress = append(x.regress, fmt.Sprintf("C12:commit-regressed|member %d was not restarted, commitId %d -> %d (event #%d %s)", i, nd.lastCid, v.commitId, at, ev))
 			}
 		}
 		nd.lastPid, nd.lastCid = v.proposalId, v.commitId
@@ -273,23 +355,36 @@ func (x *vElRun) requestFinished(c int, ev string) {
 	if err == nil {
 		next = nd.phase + 1
 	}
+	v := nd.mgr.voter
+	if nd.phase == 2 && err == nil && v.proposalId != nd.pre.pid {
+		// DoProposal's `proposalId = proposalIndex` changed the number the member held as acceptor (D2)
+		x.causes = append(x.causes, vElCause{len(x.events), c, "doproposal-overwrote-number"})
+		x.overwriteBy = c
+	}
+	if nd.phase == 3 && err != nil && nd.pre.latch != "" && v.proposalHost == "" {
+		// a failed DoCommit cleared the latch (D3)
+		x.causes = append(x.causes, vElCause{len(x.events), c, "failed-commit-cleared-latch"})
+	}
 	nd.phase = next
 	if next == 4 {
-		v := nd.mgr.voter
-		nd.wonWith = append(nd.wonWith, fmt.Sprintf("%d/%s", v.commitId, v.proposalHost))
+		nd.wins = append(nd.wins, vElAck{len(x.events), v.proposalIndex, v.proposalHost})
 	}
 	x.emit(ev, "-", c)
+	x.overwriteBy = -1
 	if next == 2 || next == 3 {
 		x.launchWithSelf(c, next)
 	}
 }
 
 func (x *vElRun) launchWithSelf(c, phase int) {
-	before := x.nodes[c].mgr.voter.commitId
+	pre := x.preOf(c)
 	x.launch(c, phase)
 	v := x.nodes[c].mgr.voter
-	if phase == 3 && v.commitId != before {
-		x.nodes[c].accepted[fmt.Sprintf("%d/%s", v.commitId, v.proposalHost)] = true
+	if phase == 2 && v.proposalId != pre.pid { // DoSelfProposal accepted
+		x.checkProposalAccept(c, pre, v.proposalId, v.voteAofId, "DoSelfProposal")
+	}
+	if phase == 3 && v.commitId != pre.cid { // DoSelfCommit acknowledged
+		x.checkCommitAck(c, pre, v.commitId, v.proposalHost, "DoSelfCommit")
 	}
 	x.emit(fmt.Sprintf("q%d.%d", c, c), "self", c)
 }
@@ -324,6 +419,7 @@ func (x *vElRun) doDeliverReq(m *vElMsg) {
 	sp := x.sps[m.t][m.c]
 	var res *protocol.CallResultCommand
 	out := "?"
+	pre := x.preOf(m.t)
 	func() {
 		defer func() {
 			if e := recover(); e != nil {
@@ -348,6 +444,9 @@ func (x *vElRun) doDeliverReq(m *vElMsg) {
 			switch res.ErrType {
 			case "":
 				out = fmt.Sprintf("ok%d", r.ProposalId)
+				rq := protobuf.ArbiterProposalRequest{}
+				_ = proto.Unmarshal(m.cmd.Data, &rq)
+				x.checkProposalAccept(m.t, pre, rq.ProposalId, tn.mgr.DecodeAofId(rq.AofId), "commandHandleProposalCommand")
 			case "ERR_REJECT":
 				out = "REJECT"
 			case "ERR_AOFID":
@@ -366,7 +465,7 @@ func (x *vElRun) doDeliverReq(m *vElMsg) {
 				out = "ok"
 				rq := protobuf.ArbiterCommitRequest{}
 				_ = proto.Unmarshal(m.cmd.Data, &rq)
-				tn.accepted[fmt.Sprintf("%d/%s", rq.ProposalId, rq.Host)] = true
+				x.checkCommitAck(m.t, pre, rq.ProposalId, rq.Host, "commandHandleCommitCommand")
 			case "ERR_HOST":
 				out = "HOST"
 			case "ERR_PROPOSALID":
@@ -383,6 +482,7 @@ func (x *vElRun) doDeliverReq(m *vElMsg) {
 	}
 	x.emit(fmt.Sprintf("q%d.%d", m.c, m.t), out, m.t)
 	if res == nil { // the handler panicked: the request fails
+		x.nodes[m.c].pre = x.preOf(m.c)
 		x.nodes[m.c].clients[m.t].rchannel <- nil
 		x.take(false, m.c, m.t)
 		x.requestFinished(m.c, fmt.Sprintf("xr%d.%d", m.c, m.t))
@@ -391,12 +491,14 @@ func (x *vElRun) doDeliverReq(m *vElMsg) {
 
 func (x *vElRun) doDeliverRep(m *vElMsg) {
 	x.take(false, m.c, m.t)
+	x.nodes[m.c].pre = x.preOf(m.c)
 	x.nodes[m.c].clients[m.t].rchannel <- m.res
 	x.requestFinished(m.c, fmt.Sprintf("r%d.%d", m.c, m.t))
 }
 
 func (x *vElRun) doDrop(m *vElMsg) {
 	x.take(m.req, m.c, m.t)
+	x.nodes[m.c].pre = x.preOf(m.c)
 	x.nodes[m.c].clients[m.t].rchannel <- nil
 	if m.req {
 		x.requestFinished(m.c, fmt.Sprintf("xq%d.%d", m.c, m.t))
@@ -406,7 +508,9 @@ func (x *vElRun) doDrop(m *vElMsg) {
 }
 
 func (x *vElRun) doSave(i int) {
-	_ = x.nodes[i].mgr.store.Save(x.nodes[i].mgr)
+	if err := x.nodes[i].mgr.store.Save(x.nodes[i].mgr); err == nil {
+		x.nodes[i].savedTracked = x.nodes[i].mgr.voter.commitId
+	}
 	x.emit(fmt.Sprintf("S%d", i), "-", i)
 }
 
@@ -432,8 +536,8 @@ func (x *vElRun) doRestart(i int) {
 	}
 	nd := x.buildNode(i, true)
 	nd.lastPid, nd.lastCid = old.lastPid, old.lastCid
-	nd.accepted = old.accepted
-	nd.wonWith = old.wonWith
+	nd.acks, nd.wins, nd.savedTracked = old.acks, old.wins, old.savedTracked
+	x.causes = append(x.causes, vElCause{len(x.events), i, "restart-forgot-commit"})
 	x.nodes[i] = nd
 	x.restarts++
 	ev := fmt.Sprintf("R%d", i)
@@ -514,7 +618,7 @@ func vElRandAof(r *rand.Rand) [16]byte {
 
 func vElNewRun(r *rand.Rand, dir string, logger logging.Logger) *vElRun {
 	n := 3 + r.Intn(3)
-	x := &vElRun{n: n, dir: dir, hostIdx: map[string]int{}, posted: make(chan *vElPost, 64), logger: logger}
+	x := &vElRun{n: n, dir: dir, hostIdx: map[string]int{}, posted: make(chan *vElPost, 64), logger: logger, overwriteBy: -1}
 	// palette: entry 0 is the zero id
 	x.palette = append(x.palette, [16]byte{})
 	np := 2 + r.Intn(4)
@@ -714,7 +818,6 @@ func (x *vElRun) genPhaseLevel(r *rand.Rand) {
 	}
 }
 
-
 // drivePhase: every message candidate c has in flight is delivered (request, then reply) or lost (unreachable target;
 // a reply with probability 1/lossy), in random order.
 func (x *vElRun) drivePhase(r *rand.Rand, c int, unreach map[int]bool, lossy int) {
@@ -821,7 +924,6 @@ func (x *vElRun) genRestartPattern(r *rand.Rand) {
 	}
 }
 
-
 // ---- replay of a given op line (canned witnesses of the Lean counterexample theorems, or VERIF_ELECT_REPLAY) ----
 
 func vElAtoi(s string) int {
@@ -832,7 +934,7 @@ func vElAtoi(s string) int {
 
 func vElFromSpec(spec, dir string, logger logging.Logger) *vElRun {
 	parts := strings.Split(spec, "/")
-	x := &vElRun{n: len(parts) - 1, dir: dir, hostIdx: map[string]int{}, posted: make(chan *vElPost, 64), logger: logger}
+	x := &vElRun{n: len(parts) - 1, dir: dir, hostIdx: map[string]int{}, posted: make(chan *vElPost, 64), logger: logger, overwriteBy: -1}
 	for _, h := range strings.Split(strings.TrimPrefix(parts[0], "A="), ",") {
 		var id [16]byte
 		for i := 0; i < 16; i++ {
@@ -953,53 +1055,116 @@ func (x *vElRun) drain() {
 	}
 }
 
+func vElFirstAck(l []vElAck, num uint64, host string) int {
+	for _, a := range l {
+		if a.num == num && a.host == host {
+			return a.at
+		}
+	}
+	return -1
+}
+
+// explain: WHY could both (number, host) pairs be acknowledged by majorities? Every member that acknowledged both must
+// have gone, between its two acknowledgements, through one of the recorded defects; anything else is "other".
+func (x *vElRun) explain(p, q vElAck) (map[string]bool, string) {
+	kinds := map[string]bool{}
+	var notes []string
+	for i, nd := range x.nodes {
+		t1, t2 := vElFirstAck(nd.acks, p.num, p.host), vElFirstAck(nd.acks, q.num, q.host)
+		if t1 < 0 || t2 < 0 {
+			continue
+		}
+		if t1 > t2 {
+			t1, t2 = t2, t1
+		}
+		kind, at := "other", -1
+		for _, c := range x.causes {
+			if c.member == i && c.at > t1 && c.at < t2 && c.at > at {
+				kind, at = c.kind, c.at
+			}
+		}
+		kinds[kind] = true
+		notes = append(notes, fmt.Sprintf("member %d acknowledged both (events #%d, #%d): %s", i, t1, t2, kind))
+	}
+	if len(kinds) == 0 {
+		kinds["other"] = true
+		notes = append(notes, "no member acknowledged both")
+	}
+	return kinds, strings.Join(notes, "; ")
+}
+
 func (x *vElRun) monitors(out *vOut, line string) {
 	seen := map[string]bool{}
+	report := func(sig, what string) {
+		if !seen[sig] {
+			seen[sig] = true
+			out.monitor(sig, what, map[string]interface{}{"op": line})
+		}
+	}
 	for _, s := range x.regress {
 		p := strings.SplitN(s, "|", 2)
-		if !seen[p[0]] {
-			seen[p[0]] = true
-			out.monitor(p[0], p[1], map[string]interface{}{"op": line})
-		}
+		report(p[0], p[1])
 	}
-	suffix := ""
-	if x.restarts > 0 {
-		suffix = "-with-restart"
-	}
-	// (number/host) pairs accepted as committed leader by a majority of the members
-	count := map[string]int{}
+	// (number, host) pairs acknowledged as committed leader by a majority of the members
+	count := map[vElAck]int{}
 	for _, nd := range x.nodes {
-		for k := range nd.accepted {
-			count[k]++
+		mine := map[vElAck]bool{}
+		for _, a := range nd.acks {
+			k := vElAck{0, a.num, a.host}
+			if !mine[k] {
+				mine[k] = true
+				count[k]++
+			}
 		}
 	}
-	var majors []string
-	hostsSeen := map[string]bool{}
+	var majors []vElAck
 	for k, c := range count {
 		if c >= x.n/2+1 {
 			majors = append(majors, k)
-			hostsSeen[strings.SplitN(k, "/", 2)[1]] = true
 		}
 	}
-	sort.Strings(majors)
-	if len(hostsSeen) >= 2 {
-		out.monitor("C12:two-commit-majorities"+suffix, fmt.Sprintf("two different hosts were each accepted as committed leader by a majority of the %d members (number/host: %s)", x.n, strings.Join(majors, " , ")),
-			map[string]interface{}{"op": line})
-	} else if len(majors) >= 2 {
-		out.monitor("C12:two-commit-numbers"+suffix, fmt.Sprintf("two proposal numbers gathered commit majorities for the same host (number/host: %s)", strings.Join(majors, " , ")),
-			map[string]interface{}{"op": line})
+	sort.Slice(majors, func(a, b int) bool {
+		if majors[a].num != majors[b].num {
+			return majors[a].num < majors[b].num
+		}
+		return majors[a].host < majors[b].host
+	})
+	for a := 0; a < len(majors); a++ {
+		for b := a + 1; b < len(majors); b++ {
+			p, q := majors[a], majors[b]
+			kinds, notes := x.explain(p, q)
+			for kind := range kinds {
+				if p.host != q.host {
+					report("C12:two-commit-majorities:"+kind, fmt.Sprintf("two different hosts were each acknowledged as committed leader by a majority of the %d members (%d/%s and %d/%s); %s", x.n, p.num, p.host, q.num, q.host, notes))
+				} else {
+					report("C12:two-commit-numbers:"+kind, fmt.Sprintf("two proposal numbers gathered commit majorities for the same host (%d/%s and %d/%s); %s", p.num, p.host, q.num, q.host, notes))
+				}
+			}
+		}
 	}
 	// candidates whose DoCommit returned success
-	wonHosts := map[string]bool{}
-	var wons []string
+	type win struct {
+		member int
+		a      vElAck
+	}
+	var wins []win
 	for i, nd := range x.nodes {
-		for _, w := range nd.wonWith {
-			wons = append(wons, fmt.Sprintf("member %d won with %s", i, w))
-			wonHosts[strings.SplitN(w, "/", 2)[1]] = true
+		for _, w := range nd.wins {
+			wins = append(wins, win{i, w})
 		}
 	}
-	if len(wonHosts) >= 2 {
-		out.monitor("C12:two-leaders-elected"+suffix, "DoCommit succeeded for two different hosts in one execution: "+strings.Join(wons, "; "), map[string]interface{}{"op": line})
+	for a := 0; a < len(wins); a++ {
+		for b := a + 1; b < len(wins); b++ {
+			p, q := wins[a], wins[b]
+			if p.a.host == q.a.host {
+				continue
+			}
+			kinds, notes := x.explain(p.a, q.a)
+			for kind := range kinds {
+				report("C12:two-leaders-elected:"+kind, fmt.Sprintf("DoCommit succeeded for two different hosts in one execution: member %d with %d/%s (event #%d), member %d with %d/%s (event #%d); %s",
+					p.member, p.a.num, p.a.host, p.a.at, q.member, q.a.num, q.a.host, q.a.at, notes))
+			}
+		}
 	}
 }
 
